@@ -81,6 +81,8 @@ static Verdict run_c07(const Case &c)
       int how = (int)c.geti("how", 0);
       if (how == 1)
         v.classes.push_back("file_entry_reads_from_a_pipe");
+      if (how == 3)
+        v.classes.push_back("file_entry_reads_from_a_pipe_after_a_header_was_read");
       if (how == 2)
       {
         // the stream has been read to its end by the caller: the message that is left is empty
@@ -149,7 +151,7 @@ static Case gen_c07()
     if (g::coin(25))
       c.seti("otherlen", g::range(1, 400));
     if (g::coin(14))
-      c.seti("how", g::coin(75) ? 1 : 2); // the stream is a pipe / has been read to its end before
+      c.seti("how", g::oneof<long>({1, 1, 3, 3, 2})); // a pipe / a pipe of which a header was read first / read to its end before
   }
   else
   {
